@@ -14,6 +14,8 @@
 //       values  insert().values([l]).ids(id)          (id = an existing node or edge)
 //       edge    insert().edges().from(f).to(t)        (existing nodes, no values; 1 in 10 with an endpoint that is not a node:
 //                                                      the query fails = the model's None, no record may change)
+//       remove  remove().ids(id)                      (id = an existing EDGE, or an existing NODE without outgoing / incoming edges
+//                                                      and without alias; with or without properties)
 //   the database is dropped;
 //   POST  = the raw records of the file, read through VStorage<FileStorage> only.
 // Case line for the extracted model (extract/m_ops.ml):   ops run <op> x<file image>
@@ -81,6 +83,15 @@ fn free_list_head(recs: &[(u64, Vec<u8>)]) -> Option<i64> {
 
 fn ihex(z: i64) -> String { ihex_pub(z) }
 
+// slot `i` of the graph's `from` (field_off 0) / `to` (field_off 8) array as stored: for a node the index of the newest
+// (= first in the list) outgoing / incoming edge
+fn graph_slot(recs: &[(u64, Vec<u8>)], field_off: usize, i: i64) -> Option<i64> {
+    let root = rec(recs, 1)?;
+    let g = rec(recs, u64_at(root, 8)?)?;
+    let v = rec(recs, u64_at(g, field_off)?)?;
+    u64_at(v, 8 + 8 * i.unsigned_abs() as usize).map(|x| x as i64)
+}
+
 // a value stored out of line: more than 15 payload bytes (estimated from the serialised form: 8-byte length prefixes)
 fn out_of_line(v: &DbValue) -> bool {
     match v {
@@ -133,12 +144,57 @@ fn one_case(rng: &mut Rng, path: &str, hwm: &mut u64, log: &mut Vec<String>, has
     let live = refresh_live(&db);
     let mut elems: Vec<i64> = live.nodes.clone();
     elems.extend(live.edges.iter());
-    let mut kind = rng.below(10);   // 0-3 node, 4-7 values, 8-9 edge
-    if kind >= 8 && live.nodes.is_empty() { kind = 0; }
+    let mut kind = rng.below(15);   // 0-3 node, 4-7 values, 8-9 edge, 10-14 remove
+    let props = |db: &DbFile, id: i64| -> Vec<DbKeyValue> {
+        db.exec(QueryBuilder::select().ids(DbId(id)).query()).ok().and_then(|r| r.elements.first().map(|e| e.values.clone())).unwrap_or_default()
+    };
+    // (id, from, to) of every edge, through the public API
+    let edge_ends: Vec<(i64, i64, i64)> = live.edges.iter().filter_map(|e| {
+        db.exec(QueryBuilder::select().ids(DbId(*e)).query()).ok().and_then(|r| r.elements.first().map(|x| (*e, x.from.0, x.to.0)))
+    }).collect();
+    let mut remove_target: Option<i64> = None;
+    if kind >= 10 {
+        // a node without edges and without alias (1 time in 3 when there is one), else an edge
+        let aliased: Vec<i64> = live.aliases.iter().filter_map(|a| {
+            db.exec(QueryBuilder::select().ids(agdb::QueryId::Alias(a.clone())).query()).ok().and_then(|r| r.elements.first().map(|e| e.id.0))
+        }).collect();
+        let lonely: Vec<i64> = live.nodes.iter().copied().filter(|n| !aliased.contains(n) && !edge_ends.iter().any(|(_, f, t)| f == n || t == n)).collect();
+        if !lonely.is_empty() && (live.edges.is_empty() || rng.chance(1, 4)) { remove_target = Some(*rng.pick(&lonely)); }
+        else if !live.edges.is_empty() { remove_target = Some(*rng.pick(&live.edges)); }
+        else { kind = rng.below(10); }
+    }
+    if (8..10).contains(&kind) && live.nodes.is_empty() { kind = 0; }
     if (4..8).contains(&kind) && elems.is_empty() { kind = 0; }
     let pop = free.map(|f| f != i64::MIN).unwrap_or(false);
     let (op, ret, ool, nontrivial): (String, String, u64, bool);
-    if kind < 4 {
+    if let Some(id) = remove_target {
+        let old = props(&db, id);
+        ool = 0;
+        let freed = old.iter().filter(|kv| out_of_line(&kv.value)).count() as u64 + old.iter().filter(|kv| out_of_line(&kv.key)).count() as u64;
+        op = format!("(remove {})", ihex(id));
+        // position of an edge in the lists it is unlinked from: the newest edge of a node is the HEAD of the node's list
+        // (no walk to a predecessor), an older one is found by the while-loop of remove_from_edge / remove_to_edge
+        if id < 0 {
+            if let Some((_, f, t)) = edge_ends.iter().find(|(e, _, _)| *e == id) {
+                let (ho, hi) = (graph_slot(&pre, 0, *f), graph_slot(&pre, 8, *t));
+                o.bump(if ho == Some(-id) { "remove:edge:HEAD-of-the-source's-out-list" } else { "remove:edge:NOT-head-of-the-source's-out-list(walk)" });
+                o.bump(if hi == Some(-id) { "remove:edge:HEAD-of-the-target's-in-list" } else { "remove:edge:NOT-head-of-the-target's-in-list(walk)" });
+                let out_of_f: Vec<i64> = edge_ends.iter().filter(|(_, ff, _)| ff == f).map(|(e, _, _)| *e).collect();
+                let in_of_t: Vec<i64> = edge_ends.iter().filter(|(_, _, tt)| tt == t).map(|(e, _, _)| *e).collect();
+                o.bump(&format!("remove:edge:out-list-of-source-has-{}", if out_of_f.len() >= 4 { "4+".to_string() } else { out_of_f.len().to_string() }));
+                o.bump(&format!("remove:edge:in-list-of-target-has-{}", if in_of_t.len() >= 4 { "4+".to_string() } else { in_of_t.len().to_string() }));
+                o.add("remove:edge:other-edges-in-its-two-lists", (out_of_f.len() + in_of_t.len() - 2) as u64);
+                if f == t { o.bump("remove:edge:self-loop"); }
+            }
+        }
+        let r = db.exec_mut(QueryBuilder::remove().ids(DbId(id)).query());
+        ret = match &r { Ok(_) => "u".to_string(), Err(e) => format!("err {}", errkind(e)) };
+        o.bump("kind:remove");
+        o.bump(if id < 0 { "remove:target=edge" } else { "remove:target=node-without-edges-and-alias" });
+        o.bump(if old.is_empty() { "remove:element-without-properties" } else { "remove:element-with-properties" });
+        o.add("remove:out-of-line keys/values freed (estimated)", freed);
+        nontrivial = true;
+    } else if kind < 4 {
         let l = gen_case_kvs(rng, 4, &[], 0);
         ool = l.iter().filter(|kv| out_of_line(&kv.value)).count() as u64 + l.iter().filter(|kv| out_of_line(&kv.key)).count() as u64;
         op = format!("(node{})", show_kvl(&l));
@@ -151,9 +207,6 @@ fn one_case(rng: &mut Rng, path: &str, hwm: &mut u64, log: &mut Vec<String>, has
     } else if kind < 8 {
         // the target: any element, sometimes the highest id, sometimes one without properties
         let mut id = if !live.edges.is_empty() && rng.chance(1, 3) { *rng.pick(&live.edges) } else { *rng.pick(&elems) };
-        let props = |db: &DbFile, id: i64| -> Vec<DbKeyValue> {
-            db.exec(QueryBuilder::select().ids(DbId(id)).query()).ok().and_then(|r| r.elements.first().map(|e| e.values.clone())).unwrap_or_default()
-        };
         match rng.below(6) {
             0 => { id = *elems.iter().max_by_key(|x| x.unsigned_abs()).unwrap(); o.bump("insert_values:target=highest-index"); }
             1 => { if let Some(e) = elems.iter().find(|e| props(&db, **e).is_empty()) { id = *e; } }
@@ -276,6 +329,19 @@ pub fn run_history(rng: &mut Rng, dir: &str, hist: usize, steps: usize, o: &mut 
         }
     }
     let has_index = has_index && n_steps > 0;
+    // one history in two ends with a fan of edges (every chosen source to every chosen target), so that nodes have SEVERAL
+    // outgoing / incoming edges and a removed edge is often not the head of its lists
+    let live = refresh_live(&db);
+    if live.nodes.len() >= 2 && rng.chance(1, 2) {
+        let from: Vec<Qid> = (0..rng.range(1, 3)).map(|_| Qid::Id(*rng.pick(&live.nodes))).collect();
+        let to: Vec<Qid> = (0..rng.range(2, 3)).map(|_| Qid::Id(*rng.pick(&live.nodes))).collect();
+        let vals = if rng.chance(1, 2) { Qvalues::Single(gen_kvs(rng, 2)) } else { Qvalues::Single(vec![]) };
+        let step = Step::Exec(Q::InsertEdges(Qids::Ids(from), Qids::Ids(to), vals, true, Qids::Ids(vec![])));
+        log.push(show_step(&step));
+        let _ = exec_step(&mut db, &step);
+        hwm = std::cmp::max(hwm, db.size());
+        o.bump("history:ends-with-a-fan-of-edges");
+    }
     drop(db);
     let k = rng.range(1, 3);
     for _ in 0..k {
